@@ -3,7 +3,12 @@ package calendar
 // C04 — civil date arithmetic (year-symbolic)
 
 func vhDate(pfx string) (y, m, d int) {
-	y, m, d = vInt(pfx+"y", 1, 9998), vInt(pfx+"m", 1, 12), vInt(pfx+"d", 1, 31)
+	// optional range splitting on the year (unit parameters YLO/YHI)
+	ylo, yhi := 1, 9998
+	if vHasParam("YLO") {
+		ylo, yhi = vParam("YLO"), vParam("YHI")
+	}
+	y, m, d = vInt(pfx+"y", ylo, yhi), vInt(pfx+"m", 1, 12), vInt(pfx+"d", 1, 31)
 	vAssume(specValidYmd(y, m, d))
 	return
 }
@@ -46,6 +51,7 @@ func VH_C04a_JulianDay() {
 	s := NewSolar(y, m, d, H, 0, 0)
 	jd := s.GetJulianDay()
 	want := float64(specJDN(y, m, d)) - 0.5 + float64(H)/24
+	vAssert("spec-forms-agree", specJDN(y, m, d) == specJDNF(y, m, d))
 	vAssert("jd-exact", jd == want)
 	// weekday from the same day number; advances by one per day (C04i)
 	vAssert("week", s.GetWeek() == (specJDN(y, m, d)+1)%7)
